@@ -1,22 +1,24 @@
 SPECIFICATION Spec
 CONSTANTS
-  Calls <- AllMethods
-  MaxCalls = 3
-  MaxFaults = 2
+  Calls <- ReplugMethods
+  MaxCalls = 4
+  MaxFaults = 0
   RetryMax = 25
   Bursts <- Burst2
-  Devices <- OkDevices
+  Devices <- AllDevices
   InitBoards <- BoardsOne
-  StartConnected = TRUE
+  StartConnected = FALSE
   MinVer <- MinVer302
   FixStatus = TRUE
   FixNick = TRUE
   FixQC = TRUE
   FixConnect = TRUE
   FixStale = TRUE
-  MaxReplug = 0
-VIEW core
+  MaxReplug = 1
 INVARIANT NoRaise
+INVARIANT ConnectTrueOnlyIfSupported
+INVARIANT ConnectFalseRecords
+INVARIANT ProbeOnly
 INVARIANT SilentWhenDead
 INVARIANT DeadCallFails
 INVARIANT DeadStaysDead
